@@ -34,6 +34,7 @@ class SW:
         self.ldims = [self.it.construct(D, [], dict(name=l * 2, letter=l, items=[f"{l}{j}" for j in range(LABEL_SIZES[l])])) for l in self.labels]
         self.dims = self.it.construct(prog.cls("DimensionSet"), [], dict(dim_list=[self.tdim] + self.ldims))
         self.shape = (n_t,) + tuple(LABEL_SIZES[l] for l in self.labels)
+        self.layout = None          # "F": every stock array's values are a column-major (non-contiguous) view
 
     # ---- symbols
     def label_indices(self):
@@ -50,8 +51,10 @@ class SW:
 
     def stock_array(self, name, values=None):
         kw = dict(dims=self.dims, name=name)
+        if values is None and self.layout == "F":
+            values = SArr.full(self.shape, 0)
         if values is not None:
-            kw["values"] = values
+            kw["values"] = S.f_layout(values) if self.layout == "F" else values
         return self.it.construct(self.prog.cls("StockArray"), [], kw)
 
     def param(self, name, over, version="A", sign="pos"):
